@@ -314,6 +314,60 @@ fn run_sequence(burst: u32, period_ms: u64, block: bool, seq: &[Op], stall: Opti
     Ok((shape, h))
 }
 
+/// Free-running pass (sampled): the FIRST requests of a never-seen peer issued from several OS
+/// threads at the same instant, quota `burst` per hour, ReturnError. Per-peer state that is
+/// created on first use can only misbehave here. The oracle is exact: a fresh peer gets `burst`.
+fn free_running(unit: &Value, out: &mut UnitResult) {
+    let burst = unit["burst"].as_u64().unwrap() as u32;
+    let racers = unit["racers"].as_u64().unwrap() as usize;
+    let trials = unit["trials"].as_u64().unwrap() as usize;
+    let quota = governor::Quota::with_period(Duration::from_secs(3600)).unwrap().allow_burst(std::num::NonZeroU32::new(burst).unwrap());
+    // one layer for the whole unit: every trial uses a peer the limiter has never seen
+    let layer = RateLimitLayer::new(quota, WaitMode::ReturnError);
+    for trial in 0..trials {
+        crate::pool::crumb(|| format!("free-running rate limit trial {trial}"));
+        out.evaluations += 1;
+        let admitted = Arc::new(Mutex::new(vec![]));
+        let mut id = [0x77u8; 32];
+        id[..8].copy_from_slice(&(trial as u64 + 1).to_le_bytes());
+        id[31] = 0;
+        let peer = anemo::PeerId(id);
+        let gate = Arc::new(std::sync::atomic::AtomicUsize::new(0));
+        let mut hs = vec![];
+        for r in 0..racers {
+            let mut svc = layer.layer(Inner { admitted: admitted.clone() });
+            let gate = gate.clone();
+            hs.push(std::thread::spawn(move || {
+                gate.fetch_add(1, std::sync::atomic::Ordering::SeqCst);
+                while gate.load(std::sync::atomic::Ordering::SeqCst) < racers {
+                    std::hint::spin_loop();
+                }
+                let req = Request::new(Bytes::new()).with_header("id", r.to_string()).with_extension(peer);
+                let rt = tokio::runtime::Builder::new_current_thread().enable_all().build().unwrap();
+                rt.block_on(svc.call(req)).map(|_| ()).map_err(|e| e.status())
+            }));
+        }
+        let results: Vec<Result<(), StatusCode>> = hs.into_iter().map(|h| h.join().unwrap()).collect();
+        let ok = results.iter().filter(|r| r.is_ok()).count();
+        let reached = admitted.lock().unwrap().len();
+        let replay = json!({"unit": unit, "trial": trial});
+        if ok > burst as usize || reached > burst as usize {
+            out.violation("quota-exceeded", format!("[free-running, quota {burst} per hour, ReturnError] {racers} first requests of a never-seen peer issued on {racers} threads at once: {ok} were answered by the service and {reached} reached it"), replay.clone());
+        }
+        if ok < burst as usize {
+            out.violation("refused-with-quota-left", format!("[free-running, quota {burst} per hour] only {ok} of {racers} simultaneous first requests of a fresh peer were admitted"), replay.clone());
+        }
+        if reached != ok {
+            out.violation("refused-but-served", format!("[free-running] {reached} requests reached the service but {ok} callers got its answer"), replay.clone());
+        }
+        if results.iter().any(|r| matches!(r, Err(s) if *s != StatusCode::TooManyRequests)) {
+            out.violation("wrong-refusal", format!("[free-running] {results:?}"), replay);
+        }
+        out.class("free-running first requests of a fresh peer");
+    }
+    out.count("free_running_trials", trials as u64);
+}
+
 /// ReturnError mode, burst 1: the permit is taken, then further requests of the same peer arrive at
 /// chosen distances before the next permit (the whole interval for sub-millisecond quotas).
 fn hint_unit(unit: &Value, out: &mut UnitResult) {
@@ -382,6 +436,7 @@ impl Check for C19 {
             assumptions: vec![
                 "real time: governor's quanta clock and futures-timer are not interceptable; the oracle uses only inequalities that hold under arbitrary scheduling delay".into(),
                 "each sequence is executed once: interleavings of the concurrent flood are sampled, not enumerated".into(),
+                "a supplementary FREE-RUNNING pass (4 / 8 OS threads issuing the first requests of a never-seen peer at once, quota 1 / 3 per hour, 300 | 3000 trials, exact oracle) samples races in per-peer state created on first use; counted under free_running_trials, not part of the exhaustive claim".into(),
             ],
             exhaustive: true,
         }
@@ -417,6 +472,9 @@ impl Check for C19 {
         }
         // refusals close to the next permit, and quotas that replenish faster than a millisecond:
         // the hint stays positive (and never exceeds one replenishment interval)
+        for (burst, racers) in [(1u32, 4usize), (3, 8)] {
+            u.push(json!({"kind":"free-running","burst":burst,"racers":racers,"trials":tier.pick(150, 1500)}));
+        }
         for period_us in [300u64, 500, 900, 1_500, 40_000] {
             u.push(json!({"kind":"hint","period_us":period_us}));
         }
@@ -433,6 +491,10 @@ impl Check for C19 {
     fn run_unit(&self, _tier: Tier, unit: &Value, out: &mut UnitResult) {
         if unit["kind"] == "hint" {
             hint_unit(unit, out);
+            return;
+        }
+        if unit["kind"] == "free-running" {
+            free_running(unit, out);
             return;
         }
         let burst = unit["burst"].as_u64().unwrap() as u32;
@@ -573,6 +635,11 @@ impl Check for C19 {
     }
 
     fn replay(&self, replay: &Value) -> String {
+        if replay["unit"]["kind"] == "free-running" {
+            let mut out = UnitResult::default();
+            free_running(&replay["unit"], &mut out);
+            return format!("free-running unit re-run (timing is not reproducible): {:?} {:?}", out.classes, out.violations.iter().map(|v| &v.message).collect::<Vec<_>>());
+        }
         if replay["unit"]["kind"] == "hint" {
             let mut out = UnitResult::default();
             hint_unit(&replay["unit"], &mut out);
